@@ -277,18 +277,20 @@ class CylcWorkflowDBChecker:
         # (Outputs and flow_nums are serialised).
         if task:
             if '*' in task:
-                # Replace Cylc ID wildcard with Sqlite query wildcard.
-                task = task.replace('*', '%')
-                stmt_wheres.append("name like ?")
+                # Match the Cylc ID wildcard with GLOB: unlike LIKE it is
+                # case sensitive and "_" and "%" are ordinary characters
+                # (escape the other GLOB special characters).
+                task = task.replace('[', '[[]').replace('?', '[?]')
+                stmt_wheres.append("name GLOB ?")
             else:
                 stmt_wheres.append("name==?")
             stmt_args.append(task)
 
         if cycle:
             if '*' in cycle:
-                # Replace Cylc ID wildcard with Sqlite query wildcard.
-                cycle = cycle.replace('*', '%')
-                stmt_wheres.append("cycle like ?")
+                # (as above)
+                cycle = cycle.replace('[', '[[]').replace('?', '[?]')
+                stmt_wheres.append("cycle GLOB ?")
             else:
                 stmt_wheres.append("cycle==?")
             stmt_args.append(cycle)
